@@ -157,9 +157,18 @@ func MustCompile(pattern string) *Regex {
 // that early regular expression implementations used and that POSIX
 // specifies.
 func CompilePOSIX(pattern string) (*Regex, error) {
-	re, err := Compile(pattern)
+	// POSIX ERE syntax: no Perl classes, no non-greedy operators, no flag groups.
+	parsed, err := syntax.Parse(pattern, syntax.POSIX)
+	if err != nil {
+		return nil, &meta.CompileError{Pattern: pattern, Err: err}
+	}
+	engine, err := meta.CompileRegexp(parsed, meta.DefaultConfig())
 	if err != nil {
 		return nil, err
+	}
+	re := &Regex{
+		engine:  engine,
+		pattern: pattern,
 	}
 	re.Longest()
 	return re, nil
